@@ -54,26 +54,19 @@ auto gemm_n(Context&& ctxt, typename It2DA::element alpha, It2DA a_first, Size a
 	if(a_count == 0) { return c_first; }
 
 	if      ((*a_first).stride()==1 && (*b_first).stride()==1 && (*c_first).stride()==1) {
-		if     ( a_count==1 && (*b_first).size()==1 ) {CTXT->gemm('N', 'N', (*b_first).size(), a_count, (*a_first).size(), &alpha, b_first.base(), (*b_first).size(), a_first.base(), (*a_first).size()  , &beta, c_first.base(), (*c_first).size()  );}
-		else if( a_count==1                        ) {CTXT->gemm('N', 'N', (*b_first).size(), a_count, (*a_first).size(), &alpha, b_first.base(), b_first. stride(), a_first.base(), (*a_first).size()  , &beta, c_first.base(), (*c_first).size()  );}
-		else                                         {CTXT->gemm('N', 'N', (*b_first).size(), a_count, (*a_first).size(), &alpha, b_first.base(), legal_ld(b_first.stride(), (*b_first).size()), a_first.base(), legal_ld(a_first.stride(), (*a_first).size()), &beta, c_first.base(), legal_ld(c_first.stride(), (*b_first).size()));}
+		{CTXT->gemm('N', 'N', (*b_first).size(), a_count, (*a_first).size(), &alpha, b_first.base(), legal_ld(b_first.stride(), (*b_first).size()), a_first.base(), legal_ld(a_first.stride(), (*a_first).size()), &beta, c_first.base(), legal_ld(c_first.stride(), (*b_first).size()));}
 	}else if((*a_first).stride()==1 && (*b_first).stride()==1 && c_first. stride()==1) {
-		if  (a_count==1)                            {CTXT->gemm('T', 'T', a_count, (*b_first).size(), (*a_first).size(), &alpha, a_first.base(), a_first. stride(), b_first.base(), (*b_first).size()  , &beta, c_first.base(), (*a_first).size()  );}
-		else                                        {CTXT->gemm('T', 'T', a_count, (*b_first).size(), (*a_first).size(), &alpha, a_first.base(), legal_ld(a_first.stride(), (*a_first).size()), b_first.base(), legal_ld(b_first.stride(), (*b_first).size()), &beta, c_first.base(), legal_ld((*c_first).stride(), a_count));}
+		{CTXT->gemm('T', 'T', a_count, (*b_first).size(), (*a_first).size(), &alpha, a_first.base(), legal_ld(a_first.stride(), (*a_first).size()), b_first.base(), legal_ld(b_first.stride(), (*b_first).size()), &beta, c_first.base(), legal_ld((*c_first).stride(), a_count));}
 	}else if(a_first. stride()==1 && (*b_first).stride()==1 && (*c_first).stride()==1) { 
-		if  (a_count==1)                            {CTXT->gemm('N', 'T', (*c_first).size(), a_count, (*a_first).size(), &alpha, b_first.base(), b_first. stride(), a_first.base(), (*a_first).stride(), &beta, c_first.base(), a_count         );}
-		else                                        {CTXT->gemm('N', 'T', (*c_first).size(), a_count, (*a_first).size(), &alpha, b_first.base(), legal_ld(b_first.stride(), (*c_first).size()), a_first.base(), legal_ld((*a_first).stride(), a_count), &beta, c_first.base(), legal_ld(c_first.stride(), (*c_first).size()));}
+		{CTXT->gemm('N', 'T', (*c_first).size(), a_count, (*a_first).size(), &alpha, b_first.base(), legal_ld(b_first.stride(), (*c_first).size()), a_first.base(), legal_ld((*a_first).stride(), a_count), &beta, c_first.base(), legal_ld(c_first.stride(), (*c_first).size()));}
 	}else if(a_first. stride()==1 && (*b_first).stride()==1 && c_first. stride()==1) {
-		if  (a_count==1)                            {CTXT->gemm('N', 'T', a_count, (*b_first).size(), (*a_first).size(), &alpha, a_first.base(), (*a_first).stride(), b_first.base(), (*a_first).size()  , &beta, c_first.base(), (*b_first).size()  );}
-		else                                        {CTXT->gemm('N', 'T', a_count, (*b_first).size(), (*a_first).size(), &alpha, a_first.base(), legal_ld((*a_first).stride(), a_count), b_first.base(), legal_ld(b_first.stride(), (*b_first).size()), &beta, c_first.base(), legal_ld((*c_first).stride(), a_count));}
+		{CTXT->gemm('N', 'T', a_count, (*b_first).size(), (*a_first).size(), &alpha, a_first.base(), legal_ld((*a_first).stride(), a_count), b_first.base(), legal_ld(b_first.stride(), (*b_first).size()), &beta, c_first.base(), legal_ld((*c_first).stride(), a_count));}
 	}else if((*a_first).stride()==1 && b_first.stride()==1 && c_first. stride()==1) {
 		                                            {CTXT->gemm('T', 'N', a_count, (*b_first).size(), (*a_first).size(), &alpha, a_first.base(), legal_ld(a_first.stride(), (*a_first).size()), b_first.base(), legal_ld((*b_first).stride(), (*a_first).size()), &beta, c_first.base(), legal_ld((*c_first).stride(), a_count));}
 	}else if((*a_first).stride()==1 && b_first. stride()==1 && (*c_first).stride()==1) {
-		if  (a_count==1)                            {CTXT->gemm('T', 'N', a_count, (*c_first).size(), (*a_first).size(), &alpha, b_first.base(), (*b_first).stride(), a_first.base(), (*a_first).size(), &beta, c_first.base(), c_first. stride());}
-		else                                        {CTXT->gemm('T', 'N', (*c_first).size(), a_count, (*a_first).size(), &alpha, b_first.base(), legal_ld((*b_first).stride(), (*a_first).size()), a_first.base(), legal_ld(a_first.stride(), (*a_first).size()), &beta, c_first.base(), legal_ld(c_first.stride(), (*c_first).size()));}
+		{CTXT->gemm('T', 'N', (*c_first).size(), a_count, (*a_first).size(), &alpha, b_first.base(), legal_ld((*b_first).stride(), (*a_first).size()), a_first.base(), legal_ld(a_first.stride(), (*a_first).size()), &beta, c_first.base(), legal_ld(c_first.stride(), (*c_first).size()));}
 	}else if(a_first. stride()==1 && b_first.stride( )==1 && c_first. stride()==1) {
-		if  ((*b_first).size()==1)                   {CTXT->gemm('N', 'N', a_count, (*b_first).size(), (*a_first).size(), &alpha, a_first.base(), (*a_first).stride(), b_first.base(), (*b_first).stride(), &beta, c_first.base(), a_count          );}
-		else                                        {CTXT->gemm('N', 'N', a_count, (*b_first).size(), (*a_first).size(), &alpha, a_first.base(), legal_ld((*a_first).stride(), a_count), b_first.base(), legal_ld((*b_first).stride(), (*a_first).size()), &beta, c_first.base(), legal_ld((*c_first).stride(), a_count));}
+		{CTXT->gemm('N', 'N', a_count, (*b_first).size(), (*a_first).size(), &alpha, a_first.base(), legal_ld((*a_first).stride(), a_count), b_first.base(), legal_ld((*b_first).stride(), (*a_first).size()), &beta, c_first.base(), legal_ld((*c_first).stride(), a_count));}
 	}else if(a_first. stride()==1 && b_first.stride( )==1 && (*c_first).stride()==1) {          
 	                                                {CTXT->gemm('T', 'T', (*b_first).size(), a_count, (*a_first).size(), &alpha, b_first.base(), legal_ld((*b_first).stride(), (*a_first).size()), a_first.base(), legal_ld((*a_first).stride(), a_count), &beta, c_first.base(), legal_ld(c_first.stride(), (*b_first).size()));}
 	} else {assert(0);}  // NOLINT(cppcoreguidelines-pro-bounds-array-to-pointer-decay,hicpp-no-array-decay)
